@@ -522,7 +522,11 @@ func (p *Program) verifyFunction(key string) *FuncResult {
 func (g *gen) obligeClauseNoAssume(kind, name string, cl Clause, reach, cond string) {
 	n := len(g.ctx.assumes)
 	g.obligeClause(kind, name, cl, reach, cond)
-	g.ctx.assumes = g.ctx.assumes[:n] // postconditions are not assumed for later clauses
+	// postconditions are not assumed for later clauses: drop the trailing "clause holds" assumption only
+	// (facts emitted while elaborating, e.g. map conventions, stay)
+	if len(g.ctx.assumes) > n {
+		g.ctx.assumes = g.ctx.assumes[:len(g.ctx.assumes)-1]
+	}
 }
 
 // frameObligations: components written by the function but not listed in `modifies`
